@@ -109,7 +109,8 @@ class Model:
            for ct in ("h11", "h2") for n in (2, 3) for r in range(5) if not (ct == "h2" and n == 3)],
     thorough=[{"ct": "h11", "flavour": "sync", "steps": 4, "_timeout": 900, "_pre": f"N == {n} and k <= 1 and ei == 1 and s0 == {s0}"}
               for n in (2, 3) for s0 in range(15)]
-    + [{"ct": ct, "flavour": fl, "steps": 3, "_pre": f"N == {n}"} for ct in ("h11", "h2") for fl in ("sync", "async") for n in (1, 2, 3)],
+    + [{"ct": ct, "flavour": fl, "steps": 3, "_pre": f"N == {n} and s0 % 3 == {r}"} for ct in ("h11", "h2") for fl in ("sync", "async") for n in (1, 2, 3)
+       for r in range(3)],
     example=dict(N=2, k=1, ei=1, s0=0, s1=1, s2=10, s3=0),
     require=("reused", "surplus-closed", "evicted", "expired-closed"),
     timeout={"quick": 300, "thorough": 900},
